@@ -146,8 +146,11 @@ def add_eos(run):
         ret = r["ret"]
         ok = isinstance(ret, G.GramRec) and len(ret.adds) == 2 and len(r["fresh"]) == 1
         if ok:
-            a0, a1 = ret.adds
             Sp = ret.f["S"]
+            # order-insensitive: the rule of the new start symbol may be added before or after the copied rules
+            a0, a1 = ret.adds
+            if not I.zexpr(a0["head"]).eq(I.zexpr(Sp)):
+                a0, a1 = a1, a0
             rule = gs.generic[0]
             ok = (smt.prove(list(path.pc), I.zexpr(Sp) == r["fresh"][0])["verdict"] == "proved"
                   and I.zexpr(a0["head"]).eq(I.zexpr(Sp)) and isinstance(a0["body"], S.TupleSeq) and len(a0["body"].items) == 2
